@@ -110,3 +110,14 @@ package record
 //@   ensures rec != nil && len(rec.ColVals) == 0 ==> result == 0
 //@   ensures rec != nil && len(rec.ColVals) > 0 ==> result == rec.ColVals[len(rec.ColVals)-1].Len
 //@   assigns nothing
+
+// ================================================================ C02: a newer layer over an older batch
+//@ prop C02
+// The newer layer (memtable over files, out-of-order over ordered) is CONCATENATED with the older batch only if the two
+// do not interleave: every remaining row of the newer record lies strictly beyond the older batch's current row in the
+// read direction (its extreme row is its LAST one: ascending the largest, descending the smallest). Otherwise the two
+// must be merged row by row - concatenating interleaving records returns unsorted rows and duplicate timestamps.
+//@ func (*Record).MergeRecordByMaxTimeOfOldRec
+//@   requires newRec != nil && oldRec != nil
+//@   call (*Record).mergeRecordNonOverlap
+//@     requires [concatenate_only_if_disjoint] (ascending ==> newTimeVals[len(newTimeVals)-1] < oldTimeVals[oldPos]) && (!ascending ==> newTimeVals[len(newTimeVals)-1] > oldTimeVals[oldPos])
